@@ -1,7 +1,7 @@
 """C06 Parameter validation accepts exactly well-formed groups.
 
 R06a clause inventory of every CheckGroup (guard domination over normalised terms),
-R06b element checks, R06c sibling matrix, R06e generator-derivation agreement between
+R06b element checks, R06f no refusal outside the three clauses of an element test, R06c sibling matrix, R06e generator-derivation agreement between
 constructor and checker (writer/reader agreement of the 'ggen' procedure)."""
 from ..core import eq_poly, poly, padd, facts_plain, norm_poly
 from fractions import Fraction
@@ -357,6 +357,47 @@ def run(ctx):
             n_el += 1
             matrix.setdefault(cls + '::CheckElement', {})[name] = bool(okv)
             (ctx.ok if okv else ctx.bad)('R06b', '%s:%s' % (key0, name), ('' if okv else 'CheckElement accepts without: ') + what, f)
+    # ------------------------------------------------------------------ R06f: nothing else is refused
+    # "accepts exactly": an element test that refuses on any condition other than its three clauses
+    # (or one that implies them) turns away valid elements -- every protocol on top then rejects
+    # honest messages for the groups concerned
+    n_f = 0
+    for cls, kind in ELEMENT_CLASSES.items():
+        f = prog.fn(cls + '::CheckElement', 0)
+        a = ctx.analysis(f)
+        T = a.T
+        x = T.mk('param', f['params'][0]['n'])
+        p_, q_ = T.mk('this', 'p'), T.mk('this', 'q')
+        allowed_terms = {x, T.int(0), T.int(1), p_, T.mk('sub', p_, T.int(1)), T.mk('powm', x, q_, p_), T.mk('jacobi', x, p_)}
+        extra = []
+        for nd in a.cfg.rpo:
+            if nd.kind != 'branch':
+                continue
+            for i, sx in enumerate(nd.succ):
+                for fa in (a.gen.get((nd.id, i)) or ()):
+                    fn_ = T.node(fa)
+                    if fn_[0] == 'all':
+                        fn_ = T.node(fn_[2])
+                    if not T.contains(fa, lambda z: z == T.node(x)):
+                        continue
+                    if fn_[0] == 'rel':
+                        sides = set(fn_[2:])
+                        if sides <= allowed_terms:
+                            continue
+                        # a length pre-check that implies a >= p
+                        if sides == {T.mk('bits', x), T.mk('bits', p_)}:
+                            continue
+                    elif fn_[0] in ('truthy', 'falsy') and T.node(fn_[1])[0] in ('invertible',):
+                        continue
+                    extra.append((nd.line, fa))
+        n_f += 1
+        key = 'R06f:%s' % cls
+        if extra:
+            ctx.bad('R06f', key, 'CheckElement decides on a condition that is none of a > 0, a < p, a^q = 1 (resp. Jacobi symbol): %s -- valid elements can be refused' %
+                    '; '.join(sorted(set(T.show(fa, 4) for ln, fa in extra)))[:300], f, line=extra[0][0])
+        else:
+            ctx.ok('R06f', key, 'the element test branches on its three clauses only', f)
+    ctx.floor('R06f', n_f, 12)
     f = prog.fn('PedersenCommitmentScheme::TestMembership', 0)
     a = ctx.analysis(f)
     fs = a.accept_facts() or set()
